@@ -363,6 +363,95 @@ theorem overlapping_runs_keep_their_verdict (hookOf : Nat → Nat) (t : List Fil
   rw [(own_response_file_written _ (response_file_per_run.2.2.2 hookOf) t r c).1 h]
   rfl
 
+/-! ## overlapping requests: every hook process is handed its own request -/
+
+theorem ctxExec_own_aux (slot file : Nat → Nat) (hs : ∀ a b, slot a = slot b → a = b)
+    (hf : ∀ a b, file a = file b → a = b) (r : Nat) :
+    ∀ (t : List CtxEv) (s1 s2 : CtxSt),
+      s1.slots (slot r) = s2.slots (slot r) → s1.files (file r) = s2.files (file r) → s1.given r = s2.given r →
+      (t.foldl (ctxStep slot file) s1).slots (slot r)
+          = ((t.filter (fun e => e.run == r)).foldl (ctxStep slot file) s2).slots (slot r) ∧
+        (t.foldl (ctxStep slot file) s1).files (file r)
+          = ((t.filter (fun e => e.run == r)).foldl (ctxStep slot file) s2).files (file r) ∧
+        (t.foldl (ctxStep slot file) s1).given r
+          = ((t.filter (fun e => e.run == r)).foldl (ctxStep slot file) s2).given r
+  | [], _, _, h1, h2, h3 => ⟨h1, h2, h3⟩
+  | e :: t, s1, s2, h1, h2, h3 => by
+    by_cases he : e.run = r
+    · have hk : (e.run == r) = true := by simp [he]
+      simp only [List.filter_cons, hk, if_true, List.foldl_cons]
+      apply ctxExec_own_aux slot file hs hf r t
+      · cases e <;> simp only [CtxEv.run] at he <;> subst he <;> simp [ctxStep, h1]
+      · cases e <;> simp only [CtxEv.run] at he <;> subst he <;> simp [ctxStep, h1, h2]
+      · cases e <;> simp only [CtxEv.run] at he <;> subst he <;> simp [ctxStep, h2, h3]
+    · have hk : (e.run == r) = false := by simp [he]
+      simp only [List.filter_cons, hk, Bool.false_eq_true, if_false, List.foldl_cons]
+      apply ctxExec_own_aux slot file hs hf r t
+      · have hne : slot r ≠ slot e.run := fun h => he (hs _ _ h).symm
+        cases e <;> simp only [CtxEv.run] at hne <;> simp [ctxStep, hne, h1]
+      · have hne : file r ≠ file e.run := fun h => he (hf _ _ h).symm
+        cases e <;> simp only [CtxEv.run] at hne <;> simp [ctxStep, hne, h2]
+      · cases e <;> simp only [CtxEv.run] at he <;> simp [ctxStep, h3, Ne.symm he]
+
+/-- **C14.5 (`own_binding_context`).** When no two requests share the backing array of their
+`BindingContext` slice and no two runs share a binding context file name, what a request's hook
+process finds in its binding context depends on that request's own steps only — for every
+interleaving of any number of requests in flight (to the same binding, to other bindings of the same
+hook, to other hooks). -/
+theorem own_binding_context (slot file : Nat → Nat) (hs : ∀ a b, slot a = slot b → a = b)
+    (hf : ∀ a b, file a = file b → a = b) (t : List CtxEv) (r : Nat) :
+    (ctxExec slot file t).given r = (ctxExec slot file (t.filter (fun e => e.run == r))).given r :=
+  (ctxExec_own_aux slot file hs hf r t .init .init rfl rfl rfl).2.2
+
+/-- the slice `HandleEvent` returns is built in the call and the name of a run's binding context
+file has a per-run part (both regenerated from the source: a changed `return` or format breaks this
+proof), hence distinct requests get distinct backing arrays and distinct files -/
+theorem binding_context_per_request :
+    ShellOp.Facts.c14HandleEventCtxExprs
+      = ["[]bctx.BindingContext{}", "[]bctx.BindingContext{}", "[]bctx.BindingContext{bc}"] ∧
+    ShellOp.Facts.c14HandleEventBcType = "bctx.BindingContext" ∧
+    ShellOp.Facts.c14ContextFileFmt = "hook-%s-binding-context-%s.json" ∧
+    ShellOp.Facts.c14ContextFileArgs = ["h.SafeName()", "uuid.Must(uuid.NewV4()).String()"] ∧
+    perRequestContext = true ∧ perRunContextFile = true ∧
+    (∀ (linkOf : Nat → Nat) (a b : Nat),
+      contextSlot perRequestContext linkOf a = contextSlot perRequestContext linkOf b → a = b) ∧
+    (∀ (hookOf : Nat → Nat) (a b : Nat),
+      responseFileName perRunContextFile hookOf a = responseFileName perRunContextFile hookOf b → a = b) := by
+  refine ⟨by decide, by decide, by decide, by decide, by decide, by decide, ?_, ?_⟩
+  · intro linkOf a b h
+    have hp : perRequestContext = true := by decide
+    simp only [contextSlot, hp, if_true] at h
+    omega
+  · intro hookOf a b h
+    have hp : perRunContextFile = true := by decide
+    simp only [responseFileName, hp, if_true] at h
+    omega
+
+/-- **C14.5 for the code as it is (`handed_own_request`)**: a request with uid `uid` to `path` that
+`route` gives to hook `h`, binding `b` (that is what `HandleEvent` puts into the context), whose
+context file is prepared and whose hook process is started later, finds exactly that in its binding
+context — in every interleaving with the hand-over, prepare and start steps of other requests —
+and this satisfies the hand-over clause the check evaluates on every observed hook process
+(`checkHanded`): own uid, a hook and binding that registered the path. -/
+theorem handed_own_request (hooks : List Hook) (path : Str) (uid : String) (h : Nat) (b : Binding)
+    (hr : route hooks (detect path).1 (detect path).2 = some (h, b))
+    (linkOf hookOf : Nat → Nat) (t : List CtxEv) (r : Nat)
+    (ht : t.filter (fun e => e.run == r) = [.hand r ⟨h, b, uid⟩, .prepare r, .start r]) :
+    (ctxExec (contextSlot perRequestContext linkOf) (responseFileName perRunContextFile hookOf) t).given r
+        = [some ⟨h, b, uid⟩] ∧
+      checkHanded hooks path uid ⟨h, b, uid⟩ = none := by
+  constructor
+  · rw [own_binding_context _ _ (binding_context_per_request.2.2.2.2.2.2.1 linkOf)
+      (binding_context_per_request.2.2.2.2.2.2.2 hookOf) t r, ht]
+    simp [ctxExec, ctxStep, CtxSt.init]
+  · obtain ⟨⟨hk, hmem, hid, hb⟩, hc, hw⟩ := route_some hr
+    have hreg : registeredFor hooks path h b = true := by
+      simp only [registeredFor, Bool.and_eq_true, List.any_eq_true, beq_iff_eq]
+      refine ⟨⟨hk, hmem, hid, ?_⟩, ?_⟩
+      · simpa using hb
+      · rw [← hc, ← hw]
+    simp [checkHanded, hreg]
+
 /-! ## `SafeURLString` yields URL-safe ids -/
 
 theorem mem_squeezeDashes : ∀ (l : Str) (c : Char), c ∈ squeezeDashes l → c ∈ l
@@ -504,6 +593,40 @@ theorem shared_file_witness :
     let own := fileExec (responseFileName true (fun _ => 7)) t
     shared.seen 1 = [some allow] ∧ shared.seen 2 = [none] ∧
     own.seen 1 = [some deny] ∧ own.seen 2 = [some allow] := by decide
+
+/-- `handed_own_request` is not vacuous: two requests to the mutating binding of hook 1 in flight,
+both handed over and both context files prepared before either process starts -/
+example :
+    let a : Handed := ⟨1, B .mutating "myHook", "u-A"⟩
+    let b : Handed := ⟨1, B .mutating "myHook", "u-B"⟩
+    let t : List CtxEv := [.hand 1 a, .hand 2 b, .prepare 1, .prepare 2, .start 1, .start 2]
+    let st := ctxExec (contextSlot perRequestContext (fun _ => 5)) (responseFileName perRunContextFile (fun _ => 1)) t
+    route twoHooks (detect "/hooks/my-hook".toList).1 (detect "/hooks/my-hook".toList).2 = some (1, B .mutating "myHook") ∧
+    t.filter (fun e => e.run == 1) = [.hand 1 a, .prepare 1, .start 1] ∧
+    st.given 1 = [some a] ∧ st.given 2 = [some b] := by decide
+
+/-- the excluded variants of `own_binding_context`. (1) The slice is kept with the link (built once
+when the binding is enabled) and every `HandleEvent` writes the request into its only element:
+request A is handed over, then request B to the same binding, then A's run is prepared and its
+process starts: it finds B's request — which the hand-over clause rejects — and B's verdict is
+relayed to A. (2) One binding context file per hook (no per-run part in the name): A's file is
+prepared, B's run overwrites it, A's process starts with B's request. -/
+theorem shared_context_witness :
+    let a : Handed := ⟨1, B .mutating "myHook", "u-A"⟩
+    let b : Handed := ⟨1, B .mutating "myHook", "u-B"⟩
+    let t : List CtxEv := [.hand 1 a, .hand 2 b, .prepare 1, .start 1, .prepare 2, .start 2]
+    let t' : List CtxEv := [.hand 1 a, .prepare 1, .hand 2 b, .prepare 2, .start 1, .start 2]
+    let sharedSlot := ctxExec (contextSlot false (fun _ => 5)) (responseFileName true (fun _ => 1)) t
+    let sharedFile := ctxExec (contextSlot true (fun _ => 5)) (responseFileName false (fun _ => 1)) t'
+    let own := ctxExec (contextSlot true (fun _ => 5)) (responseFileName true (fun _ => 1)) t
+    let own' := ctxExec (contextSlot true (fun _ => 5)) (responseFileName true (fun _ => 1)) t'
+    sharedSlot.given 1 = [some b] ∧ sharedSlot.given 2 = [some b] ∧
+    sharedFile.given 1 = [some b] ∧ sharedFile.given 2 = [some b] ∧
+    own.given 1 = [some a] ∧ own.given 2 = [some b] ∧ own'.given 1 = [some a] ∧ own'.given 2 = [some b] ∧
+    checkHanded twoHooks "/hooks/my-hook".toList "u-A" b = some "the-hook-process-was-handed-another-request" ∧
+    checkHanded twoHooks "/hooks/my-hook".toList "u-A" a = none ∧
+    checkHanded twoHooks "/hooks/my-hook".toList "u-A" ⟨2, B .validating "b.example.com", "u-A"⟩
+      = some "handed-to-a-hook-or-binding-that-did-not-register-this-path" := by decide
 
 end Examples
 
